@@ -105,6 +105,27 @@ pub struct PluginChoice {
     pub lb: Option<&'static str>, // "custom" | "haversine"
     pub inject: bool,
     pub rtree: bool,
+    /// the matching plugin is edge_rtree (the search is then edge oriented) instead of vertex_rtree
+    pub edge_rtree: bool,
+}
+
+pub const TURNS: [&str; 8] = ["no_turn", "slight_right", "slight_left", "right", "left", "sharp_right", "sharp_left", "u_turn"];
+
+/// optional models around the search: turn-delay access model (needs a time feature), road-class
+/// frontier model, uuid output plugin. Each adds a per-edge / per-vertex table file and a service
+/// shared by all workers.
+pub fn gen_extras(r: &mut Rng, w: &mut World) {
+    let has_time = !matches!(w.traversal, Traversal::Distance { .. });
+    if has_time && r.chance(0.3) {
+        w.headings = Some((0..w.ne()).map(|_| (r.below(360) as i16, if r.chance(0.7) { Some(r.below(360) as i16) } else { None })).collect());
+        w.turn_delays = Some(TURNS.iter().map(|t| (t.to_string(), if *t == "no_turn" && r.chance(0.5) { 0.0 } else { many_digits(r, 0.0, 30.0) })).collect());
+    }
+    if r.chance(0.3) {
+        w.road_classes = Some((0..w.ne()).map(|_| r.below(4) as u8).collect());
+    }
+    if r.chance(0.2) {
+        w.uuid_plugin = true;
+    }
 }
 
 pub fn gen_plugins(r: &mut Rng, w: &mut World) -> PluginChoice {
@@ -114,7 +135,10 @@ pub fn gen_plugins(r: &mut Rng, w: &mut World) -> PluginChoice {
         lb: if r.chance(0.4) { Some(if r.chance(0.5) { "custom" } else { "haversine" }) } else { None },
         inject: r.chance(0.2),
         rtree: r.chance(0.3),
+        edge_rtree: false,
     };
+    let mut pc = pc;
+    pc.edge_rtree = pc.rtree && r.chance(0.3);
     let mut ps = vec![];
     if pc.grid {
         ps.push(json!({"type": "grid_search"}));
@@ -123,7 +147,16 @@ pub fn gen_plugins(r: &mut Rng, w: &mut World) -> PluginChoice {
         ps.push(json!({"type": "inject", "key": "injected", "value": "{\"by\":\"config\"}", "format": "json"}));
     }
     if pc.rtree {
-        let mut p = json!({"type": "vertex_rtree", "vertices_input_file": w.vertices_path()});
+        let mut p = if pc.edge_rtree {
+            w.edge_oriented = true;
+            let mut p = json!({"type": "edge_rtree", "geometry_input_file": w.table_path_pub("geoms")});
+            if w.road_classes.is_some() && r.chance(0.7) {
+                p["road_class_input_file"] = json!(w.table_path_pub("classes"));
+            }
+            p
+        } else {
+            json!({"type": "vertex_rtree", "vertices_input_file": w.vertices_path()})
+        };
         if r.chance(0.5) {
             p["distance_tolerance"] = json!(many_digits(r, 0.5, 5.0));
             p["distance_unit"] = json!("kilometers");
@@ -299,6 +332,14 @@ pub fn gen_query(r: &mut Rng, w: &World, pc: &PluginChoice, qid: usize, failing_
         }
         q["grid_search"] = Value::Object(g);
     }
+    if w.road_classes.is_some() && r.chance(0.4) {
+        // allowed road classes (a subset may cut the destination off: a 'no path' error response)
+        let n = r.range(1, 4);
+        let mut cs: Vec<u64> = (0..n).map(|_| r.below(4)).collect();
+        cs.sort();
+        cs.dedup();
+        q["road_classes"] = json!(cs);
+    }
     if pc.lb == Some("custom") {
         // mostly ordinary estimates; sometimes ties, zero, negative or huge ones (all legal numbers)
         q["w"] = match r.below(20) {
@@ -404,4 +445,21 @@ pub fn gen_energy(r: &mut Rng, w: &mut World) {
         ("energy_liquid".into(), many_digits(r, 0.5, 3.0)),
         ("energy_electric".into(), many_digits(r, 0.5, 3.0)),
     ];
+}
+
+/// reach probes for the optional parts of a generated world
+pub fn world_reach(w: &World, reach: &mut std::collections::BTreeMap<String, u64>) {
+    let mut put = |k: &str, b: bool| {
+        if b {
+            *reach.entry(k.to_string()).or_insert(0) += 1;
+        }
+    };
+    put("worlds_turn_delay", w.headings.is_some());
+    put("worlds_road_class", w.road_classes.is_some());
+    put("worlds_uuid_plugin", w.uuid_plugin);
+    put("worlds_edge_rtree", w.input_plugins.iter().any(|p| p["type"] == json!("edge_rtree")));
+    put("worlds_vertex_rtree", w.input_plugins.iter().any(|p| p["type"] == json!("vertex_rtree")));
+    put("worlds_edge_oriented", w.edge_oriented);
+    put("worlds_ksp", w.algorithm.get("k").is_some());
+    put("worlds_combined_sinks", w.out2.is_some());
 }
